@@ -754,6 +754,12 @@ class Engine:
             if self.is_float(a) or self.is_float(b):
                 return z3.If(c, self.to_float(a), self.to_float(b))
             return z3.If(c, self.to_int(a), self.to_int(b))
+        if name == "np.empty_like" and len(args) == 1 and not e.keywords:
+            v = self.ev(args[0], st, spec)
+            if isinstance(v, Arr):
+                self.drop("np.empty_like: element type of the new array follows the argument (the contract's element kind; machine dtypes are not modelled)")
+                return self.fresh_arr("empty_like", v.shape, v.elem)
+            raise Unsupported("np.empty_like of non-array")
         if name in ("np.empty", "np.zeros"):
             shp = self.ev(args[0], st, spec)
             shp = shp if isinstance(shp, tuple) else (shp,)
